@@ -18,6 +18,8 @@ Returns of H must be in tail position (if/else, with, try bodies included);
 """
 from __future__ import annotations
 
+from sa.model import clone as _clone
+
 import ast
 import copy
 import json
@@ -266,7 +268,7 @@ class Inliner:
                 return
             stmts.append(ast.Assign(
                 targets=[ast.Name(id=mapping[param], ctx=ast.Store())],
-                value=copy.deepcopy(value)))
+                value=_clone(value)))
 
         params = [x.arg for x in h.node.args.posonlyargs + h.node.args.args]
         is_method = h.cls is not None and not h.is_static and params and \
@@ -329,7 +331,7 @@ class Inliner:
                     if isinstance(e, ast.Name) and e.id == result_name:
                         return None
                     return inner(e)
-        body = [copy.deepcopy(s) for s in h.node.body]
+        body = [_clone(s) for s in h.node.body]
         if body and isinstance(body[0], ast.Expr) and isinstance(
                 body[0].value, ast.Constant) and isinstance(
                     body[0].value.value, str):
@@ -392,13 +394,13 @@ class Inliner:
             tgt = st.targets[0]
             call = st.value
             make = lambda e, tgt=tgt: ast.Assign(  # noqa: E731
-                targets=[copy.deepcopy(tgt)],
+                targets=[_clone(tgt)],
                 value=e if e is not None else ast.Constant(value=None))
         elif isinstance(st, ast.AnnAssign) and isinstance(st.value, ast.Call):
             tgt, ann = st.target, st.annotation
             call = st.value
             make = lambda e, tgt=tgt, ann=ann: ast.AnnAssign(  # noqa: E731
-                target=copy.deepcopy(tgt), annotation=copy.deepcopy(ann),
+                target=_clone(tgt), annotation=_clone(ann),
                 value=e if e is not None else ast.Constant(value=None),
                 simple=1)
         elif isinstance(st, ast.Return) and isinstance(st.value, ast.Call):
@@ -445,9 +447,9 @@ class Inliner:
                             def visit_Expr(self, node):
                                 if isinstance(node.value, ast.Yield):
                                     return [ast.Assign(
-                                        targets=[copy.deepcopy(tgt)],
+                                        targets=[_clone(tgt)],
                                         value=node.value.value)] + [
-                                            copy.deepcopy(b) for b in loop_body]
+                                            _clone(b) for b in loop_body]
                                 return node
 
                         out = []
@@ -523,7 +525,7 @@ class _PropertyInline(ast.NodeTransformer):
         if isinstance(node.ctx, ast.Load) and node.attr in self.props and \
                 isinstance(node.value, ast.Name) and node.value.id == "self":
             self.changed = True
-            return ast.copy_location(copy.deepcopy(self.props[node.attr]), node)
+            return ast.copy_location(_clone(self.props[node.attr]), node)
         return node
 
 
